@@ -367,6 +367,15 @@ def sort_before_truncation(ck, prog):
         ck.violation(rule, inst, b.path, f"{b.loc[0]}:{b.loc[1]}", expected="a truncation to k", found="none recognised")
         return
     bad = [cb for cb in cuts for sb_ in sorts if sb_ in b.reachable_from([cb], cut_edges=be) and sb_ != cb]
+    # the key of the ordering is the distance (the floating-point component), not the index
+    for c in prog.closures_of.get(b.path, []):
+        for cbb, ct in c.calls():
+            cf = ct.get("f")
+            if cf and cf["path"].split("::")[-1] in ("partial_cmp", "cmp", "total_cmp") and (cf.get("self_ty") or "") in ("usize", "u32", "u64", "i64", "i32"):
+                passed = any(a[0] == "agg" and a[1] == "closure:" + c.path for bb2, t2 in b.calls() if bb2 in sorts for a in [res.operand(x) for x in t2["args"]])
+                if passed:
+                    ck.violation(rule, inst, c.path, c.where(cbb), ordinal="key", expected="candidates ordered by distance before the cut to k",
+                                 found=f"the sort compares a `{cf.get('self_ty')}` component (the point index): with a tie at the k-th distance a strictly nearer point with a higher index is cut off")
     if bad:
         ck.violation(rule, inst, b.path, b.where(bad[0]), expected="no sort after the truncation", found="the candidate list is cut to k before it is sorted")
     else:
